@@ -75,8 +75,9 @@ def redos_lemmas(ctx, versions=((3, 6), (3, 10))):
     time on a failing match (long digit runs, long comments ...), i.e. the tokenizer would not terminate in practice"""
     from parso.python import tokenize as PT
     seen = set()
-    pats = [(PT.fstring_string_single_line, 'fstring_string_single_line'), (PT.fstring_string_multi_line, 'fstring_string_multi_line'),
-            (PT.fstring_format_spec_single_line, 'fstring_format_spec_single_line'), (PT.fstring_format_spec_multi_line, 'fstring_format_spec_multi_line')]
+    # every compiled pattern the tokenizer module defines at module level (robust against renames)
+    import re as _re
+    pats = [(val, nm) for nm, val in sorted(vars(PT).items()) if isinstance(val, _re.Pattern)]
     for v in versions:
         tc = PT._get_token_collection(v)
         pats.append((tc.pseudo_token, 'PseudoToken %d.%d' % v))
